@@ -146,8 +146,13 @@ func init() {
 					om.Replace(fmt.Sprint("k", i), fmt.Sprint("k", i+1), "renamed")
 				}
 			}
+			// (the dump of the shared map is taken now, before anything has observed it)
+			omBefore := c19snapshot(om)
 			om2 := ordered.NewMap[string, any](0)
 			om.Range(func(k string, v any) error { om2.Set(k, v); return nil })
+			if after := c19snapshot(om); after != omBefore {
+				oracleFail("C19", "observer-mutates", sx.A(fmt.Sprintf("ordered map built by 12 Set and 6 colliding Replace (round %d)", r)), "Range changed the map it ranged over:\n"+firstDiff(omBefore, after))
+			}
 			g := newDocgen(rng, false)
 			sdoc := dMap(dkv{"steps", g.signableSteps(2, 5, false)})
 			sdoc.get("steps").l = append(sdoc.get("steps").l, dMap(dkv{"command", dStr("x")},
